@@ -406,6 +406,10 @@ func c09MiscOps() []*c09Op {
 		&c09Op{text: "SafeUint(math.MaxUint64)", pieces: c09One(true, "18446744073709551615"), valid: true, run: func(t *c09Tgt) { t.sw.SafeUint(math.MaxUint64) }},
 		&c09Op{text: "SafeInt(math.MinInt64)", pieces: c09One(true, "-9223372036854775808"), valid: true, run: func(t *c09Tgt) { t.sw.SafeInt(math.MinInt64) }},
 		&c09Op{text: "SafeFloat(1.5)", pieces: c09One(true, "1.5"), valid: true, run: func(t *c09Tgt) { t.sw.SafeFloat(1.5) }},
+		// the float payloads that are not digits (an infinity keeps its sign, as in fmt; seed C09-9)
+		&c09Op{text: "SafeFloat(math.Inf(1))", pieces: c09One(true, "+Inf"), valid: true, run: func(t *c09Tgt) { t.sw.SafeFloat(SafeFloat(math.Inf(1))) }},
+		&c09Op{text: "SafeFloat(math.Inf(-1))", pieces: c09One(true, "-Inf"), valid: true, run: func(t *c09Tgt) { t.sw.SafeFloat(SafeFloat(math.Inf(-1))) }},
+		&c09Op{text: "SafeFloat(math.NaN())", pieces: c09One(true, "NaN"), valid: true, run: func(t *c09Tgt) { t.sw.SafeFloat(SafeFloat(math.NaN())) }},
 		&c09Op{text: "Print(1, 2)", pieces: []c09Piece{{false, "1"}, {true, " "}, {false, "2"}}, valid: true, run: func(t *c09Tgt) { t.sw.Print(1, 2) }},
 		&c09Op{text: "Print(Safe(1), \"x\", Safe(2), Safe(3))", pieces: []c09Piece{{true, "1"}, {false, "x"}, {true, "2 3"}}, valid: true,
 			run: func(t *c09Tgt) { t.sw.Print(Safe(1), "x", Safe(2), Safe(3)) }},
